@@ -557,5 +557,12 @@ func (this *partition) isOnNode(nodeId uint64) bool {
 
 func (this *partition) randomNodeId() uint64 {
 	nodeIds := this.nodeIds()
+	if len(nodeIds) == 0 {
+		// A partition can lose all of its replicas (replication factor 1 and
+		// its node removed). No node has id 0: the caller's dial fails with
+		// "node address not found" instead of rand.Intn(0) panicking in a
+		// request handler.
+		return 0
+	}
 	return nodeIds[rand.Intn(len(nodeIds))]
 }
